@@ -203,6 +203,30 @@ def main():
                 except Exception as e:  # noqa: BLE001
                     rows.append({"name": nm + " (by value)", "symbol": sym, "stored": -1, "expected": -2, "readback": "error: %s" % str(e)[:80]})
         out.write(json.dumps({"kind": "options", "owner": o["owner"], "attr": o["attr"], "rows": rows}) + "\n")
+    # integrator shortcut names select a scheme together with its options: what they leave behind does not depend on what was selected before
+    names = ["wh", "whc", "whckl", "whckm", "whckc", "saba(10,6,4)", "sabacl4", "saba1", "whfast", "saba", "ias15"]
+    short = [n for n in names if n not in ("whfast", "saba", "ias15")]
+
+    def snap(sm):
+        return {"integrator": sm.integrator, "whfast.corrector": int(sm.ri_whfast.corrector), "whfast.kernel": sm.ri_whfast.kernel, "saba.type": sm.ri_saba.type}
+    rows = []
+    for b in short:
+        fresh = rebound.Simulation()
+        fresh.integrator = b
+        want = snap(fresh)
+        keys = ["integrator", "whfast.corrector", "whfast.kernel"] if b.startswith("wh") else ["integrator", "saba.type"]
+        for a in names:
+            if a == b:
+                continue
+            sm = rebound.Simulation()
+            try:
+                sm.integrator = a
+                sm.integrator = b
+                got = snap(sm)
+            except Exception as e:  # noqa: BLE001
+                got = {"error": str(e)[:80]}
+            rows.append({"first": a, "then": b, "got": {k: got.get(k) for k in keys}, "want": {k: want[k] for k in keys}})
+    json.dump({"kind": "shortcuts", "rows": rows}, open(sys.argv[4] + ".shortcuts", "w"))
     out.close()
     print(json.dumps({"unmapped_classes": unmapped}))
 
